@@ -485,21 +485,23 @@ func ruleR05_3(w *World, r *Report) {
 	stageOrder(u, r, d, "PushPullHandler.process", []stage{
 		storeStage("initialise (reply channel set)", "$0.retCh"),
 		{"validate (read-only client refused)", func(d *deepFn, x dins) bool {
-			c, ok := x.in.(*ssa.Call)
-			if !ok || calleeName(c) != "New" {
+			// a test of isReadOnly that leads to the refusal PushPullAbortionOfClient
+			fa, ok := x.in.(*ssa.FieldAddr)
+			if !ok || fieldName(fa.X.Type(), fa.Field) != "PushPullHandler.isReadOnly" {
 				return false
 			}
-			recv, _ := recvAndArgs(c)
-			k, isK := recv.(*ssa.Const)
-			if !isK {
-				return false
+			leads := false
+			for _, c := range callsNamed(x.n.fn, "New") {
+				recv, _ := recvAndArgs(c)
+				k, isK := recv.(*ssa.Const)
+				if !isK {
+					continue
+				}
+				if code, isInt := constInt(k); isInt && errorCodeName(u, code) == "PushPullAbortionOfClient" && reachableFrom(x.in, c.(ssa.Instruction)) {
+					leads = true
+				}
 			}
-			code, isInt := constInt(k)
-			if !isInt || errorCodeName(u, code) != "PushPullAbortionOfClient" {
-				return false
-			}
-			lits, _ := litStrings(x.n.fn, x.in)
-			return allPathsContain(lits, ".isReadOnly")
+			return leads
 		}},
 		storeStage("classify (case evaluated)", "$0.casePushPull"),
 		storeStage("subscribe/create (client entry bound)", "$0.subClientDoc"),
